@@ -188,6 +188,19 @@ def build_harness():
 # ---------------------------------------------------------------------------------------------
 # sharded execution
 # ---------------------------------------------------------------------------------------------
+def _big_stack():
+    # the extracted model recurses over byte lists (non-tail calls): give it the stack it needs
+    import resource
+    try:
+        resource.setrlimit(resource.RLIMIT_STACK, (resource.RLIM_INFINITY, resource.RLIM_INFINITY))
+    except (ValueError, OSError):
+        try:
+            soft, hard = resource.getrlimit(resource.RLIMIT_STACK)
+            resource.setrlimit(resource.RLIMIT_STACK, (hard, hard))
+        except (ValueError, OSError):
+            pass
+
+
 def run_sharded(binary, lines, workdir, tag, shards=NPROC, timeout=3600, env=None, args=()):
     """Feeds `lines` to `binary` over `shards` parallel processes; returns the output lines in order."""
     n = len(lines)
@@ -209,7 +222,8 @@ def run_sharded(binary, lines, workdir, tag, shards=NPROC, timeout=3600, env=Non
             f.write("\n".join(chunk) + "\n")
         fi = open(inp)
         fo = open(outp, "w")
-        p = subprocess.Popen([binary] + list(args), stdin=fi, stdout=fo, stderr=subprocess.DEVNULL, env=e)
+        p = subprocess.Popen([binary] + list(args), stdin=fi, stdout=fo, stderr=subprocess.DEVNULL, env=e,
+                             preexec_fn=_big_stack)
         procs.append((p, fi, fo, outp, len(chunk)))
     res = []
     deadline = time.time() + timeout
